@@ -3,7 +3,7 @@
    model; compilation is rustc's and is covered by execution, see DESIGN.md.) *)
 From Coq Require Import List NArith Lia.
 From Truc.Model Require Import Layout Builder.
-From Truc.Proofs Require Import Variants BuilderInv LayoutThms Panics.
+From Truc.Proofs Require Import Variants BuilderInv LayoutThms Panics Bound.
 Import ListNotations.
 Open Scope N_scope.
 
@@ -20,6 +20,16 @@ Proof.
   - apply max_size_some; auto.
 Qed.
 Print Assumptions C13a.
+
+(* The hypothesis of C13a is discharged from the requests alone: if the sizes and alignments the
+   history asks for add up to at most usize::MAX (hbound), every datum of every variant ends at or
+   below usize::MAX, whatever mixture of shipped strategies closed the variants (Proofs/Bound.v: each
+   strategy places a new datum no further than the end of the live data plus size + alignment - 1). *)
+Theorem C13a_requests : forall h, hist_ok h -> hbound h <= MAXU ->
+  let b := run h in
+  display (b_ds b, b_vs b) <> None /\ max_size (b_ds b, b_vs b) <> None.
+Proof. intros h Hh Hb. apply C13a; auto. apply fits_of_bound; auto. Qed.
+Print Assumptions C13a_requests.
 
 (* on the model of the code before the two fixes, both panics exist *)
 Example C13a_refuted_unfixed :
